@@ -204,6 +204,37 @@ func (fr *Frame) modelExternal(callee *ssa.Function, full string, c *ssa.CallCom
 		vc.assume(pc, "(forall ((k (_ BitVec 64))) (! "+Imp(outside, Eq(Sel(na, "k"), Sel(oldArr, "k")))+" :pattern ((select "+na+" k))))")
 		vc.heapSet(st, cl, srt, Sto(h, x.Ts[0], na))
 		return Val{}, pc, true
+	case full == "errors.As" && len(c.Args) == 2:
+		// errors.As(err, &target) with a statically known target type T (target is a *T boxed in `any`):
+		// the answer and the value found are fixed (uninterpreted) functions of the error value and T, so that
+		// repeated queries agree and contracts can state them (errorsAs(err, T)). A nil error has no chain; an error whose
+		// dynamic type is T is found at once. Assumed: error chains hold no typed-nil pointers (the value found is non-nil).
+		mi, ok := c.Args[1].(*ssa.MakeInterface)
+		if !ok {
+			return Val{}, pc, false
+		}
+		pt, ok := mi.X.Type().Underlying().(*types.Pointer)
+		if !ok {
+			return Val{}, pc, false
+		}
+		tt := pt.Elem()
+		vc.UsedAssumed["errors.As (built-in model: deterministic in (error value, target type); found value non-nil)"] = true
+		okT, found := vc.errorsAsTerms(args[0], tt)
+		tgt := fr.get(mi.X)
+		addr := vc.addrOfPointer(tgt, tt)
+		oldv := vc.loadAddr(st, addr)
+		var nv Val
+		if isPointerLike(tt) {
+			nv = Val{Typ: tt, Ts: []T{found}}
+		} else {
+			nv = vc.freshVal("errors_as_val", tt)
+		}
+		out := make([]T, len(nv.Ts))
+		for i := range nv.Ts {
+			out[i] = Ite(okT, nv.Ts[i], oldv.Ts[i])
+		}
+		vc.storeAddr(st, addr, Val{Typ: tt, Ts: out})
+		return Val{Typ: rt, Ts: []T{okT}}, pc, true
 	case full == "bytes.Equal":
 		// equality of lengths is implied; contents compared abstractly
 		r := vc.fresh("bytes_eq", SortBool)
@@ -282,4 +313,28 @@ func (vc *VC) pureModel(name string, argv []Val, env *Env) (Val, bool) {
 	}
 	// module functions with a `pure` contract or small bodies could be supported by inlining; not needed so far
 	return Val{}, false
+}
+
+// errorsAsTerms: (errors.As(err, *T) succeeds, the value it finds) as uninterpreted functions of the error value and T.
+func (vc *VC) errorsAsTerms(errv Val, tt types.Type) (T, T) {
+	vc.declareFun("gv_errors_as", []string{SortBV(64), SortRef, SortBV(64)}, SortBool)
+	vc.declareFun("gv_errors_as_val", []string{SortBV(64), SortRef, SortBV(64)}, SortRef)
+	id := vc.E.TypeID(tt)
+	okT := app("gv_errors_as", errv.Ts[0], errv.Ts[1], id)
+	found := app("gv_errors_as_val", errv.Ts[0], errv.Ts[1], id)
+	key := okT
+	if !vc.subSeen[key] {
+		vc.subSeen[key] = true
+		parts := []T{
+			Imp(Eq(errv.Ts[0], BV(0, 64)), Not(okT)),
+			Imp(okT, Not(Eq(found, BV(0, 64)))),
+		}
+		if isPointerLike(tt) {
+			parts = append(parts, Imp(And(Eq(errv.Ts[0], id), Not(Eq(errv.Ts[1], BV(0, 64)))), And(okT, Eq(found, errv.Ts[1]))))
+		} else {
+			parts = append(parts, Imp(Eq(errv.Ts[0], id), okT))
+		}
+		vc.assume(True, And(parts...))
+	}
+	return okT, found
 }
